@@ -10,6 +10,7 @@ mod oracle;
 mod props;
 mod report;
 mod rng;
+mod sched;
 mod sexp;
 
 use report::Report;
@@ -77,7 +78,9 @@ fn main() {
         let _ = rayon::ThreadPoolBuilder::new().num_threads(2).build_global();
     }
     // panics inside catch_unwind are expected in places: keep stderr quiet
-    std::panic::set_hook(Box::new(|_| {}));
+    if std::env::var("VERIF_SHOW_PANICS").is_err() {
+        std::panic::set_hook(Box::new(|_| {}));
+    }
     let ctx = Ctx { seed, thorough: tier == "thorough", verif_dir, replay };
     let mut rep = Report::new(&prop);
     let mut model = model::Model::spawn(&model_path);
@@ -91,6 +94,8 @@ fn main() {
         "C08" => props::c08::run(&ctx, &mut model, &mut rep),
         "C09" => props::c09::run(&ctx, &mut model, &mut rep),
         "C10" => props::c10::run(&ctx, &mut model, &mut rep),
+        "C11" => props::c11::run(&ctx, &mut model, &mut rep),
+        "C12" => props::c12::run(&ctx, &mut model, &mut rep),
         "C15" => props::c15::run(&ctx, &mut model, &mut rep),
         "C17" => props::c17::run(&ctx, &mut model, &mut rep),
         "C18" => props::c18::run(&ctx, &mut model, &mut rep),
